@@ -187,6 +187,21 @@ class NodeV(Val):
         return f"Node({self.cls}:{self.name})"
 
 
+class FlagV(Val):
+    """A value of a package-defined enum.Flag class: the set of member names that are set (the zero member is the empty set)."""
+    __slots__ = ("cls", "members", "universe")
+
+    def __init__(self, cls: str, members, universe):
+        self.cls, self.members, self.universe = cls, frozenset(members), tuple(universe)
+
+    @property
+    def tag(self):
+        return f"{self.cls}.{'|'.join(sorted(self.members)) or '0'}"
+
+    def __repr__(self):
+        return f"FlagV({self.tag})"
+
+
 class EnumV(Val):
     __slots__ = ("dotted",)
 
